@@ -26,6 +26,7 @@ Definition run_prop (prop : bytes) (input : val) : val :=
   else if bytes_eqb prop (str "C16") then run_c16 input
   else if bytes_eqb prop (str "C17") then run_c17 input
   else if bytes_eqb prop (str "C19") then run_c19 input
+  else if bytes_eqb prop (str "C18") then L [I 0]
   else L [B (str "unknown-property")].
 
 Definition holds_prop (prop : bytes) (input output : val) : val :=
@@ -48,6 +49,7 @@ Definition holds_prop (prop : bytes) (input output : val) : val :=
   else if bytes_eqb prop (str "C16") then holds_c16 input output
   else if bytes_eqb prop (str "C17") then holds_c17 input output
   else if bytes_eqb prop (str "C19") then holds_c19 input output
+  else if bytes_eqb prop (str "C18") then (if Z.eqb (vZ (nthv 0 output)) 0 then B [] else B (str "the-race-detector-reported-a-data-race-between-these-two-accesses"))
   else B (str "unknown-property").
 
 (** One line of the case file: [input TAB impl_output]  ->  [model_output TAB holds]. *)
